@@ -271,7 +271,7 @@ def run(chk, tier, prop):
     models = []
     CH = 2000
     for a in range(0, len(kept), CH):
-        models += lib.model_run("screen", [c[:6] for c in kept[a:a + CH]])       # c[6], when present: kinds (worker side only)
+        models += lib.model_run_tolerant("screen", [c[:6] for c in kept[a:a + CH]], timeout=180, floor=15)       # c[6], when present: kinds (worker side only)
     verdicts = monitors(MON[prop], [(c, i[1]) for c, i in zip(kept, kimpl)])
     nbad = 0
     for c, i, m, v in zip(kept, kimpl, models, verdicts):
@@ -290,6 +290,12 @@ def run(chk, tier, prop):
                               dict(kind="screen", prop=prop, case=c, output_excerpt=i[4][max(0, pos - 200):pos + 50]), found=True)
                 nbad += 1
                 continue
+        if m is None:
+            chk.violation("corr:%s" % prop, "the implementation finishes a session on which the proved model, given fuel for the "
+                          "implementation's trace length, gives no answer in time: implementation and model disagree",
+                          dict(kind="screen", prop=prop, case=c, trace=pretty(i[1])[-40:]), found=False)
+            nbad += 1
+            continue
         if v[0] == 0:
             key = classify(prop, c, i, v[1], m)
             chk.violation(key, "%s acceptor rejects the implementation's own trace at event %d: %s" % (prop, v[1], show(i[1][v[1]])),
